@@ -6,6 +6,7 @@ import (
 	"bytes"
 	"fmt"
 	"hash/fnv"
+	"io"
 	"net"
 	"reflect"
 	"runtime"
@@ -1059,5 +1060,106 @@ func TestVerif_C15_CloseWindow(t *testing.T) {
 		m.Count("racers_that_gave_up_spinning", atomic.LoadInt64(&gaveUp))
 		x.tr.rd.Close()
 		x.judge(p, rep, "closewindow")
+	}
+}
+
+// ---- write deadlines ------------------------------------------------------------------------------
+
+// A transport that honours SetWriteDeadline the way a net.Conn does: a Write after the deadline that is in effect fails
+// with a timeout.  Control frames carry their own deadline (the default pong/close replies use now+1s); it must never
+// leak into the data writer's writes, which run under the connection's own write deadline (none, or a later one).
+type verifDeadlineConn struct {
+	verifC13bConn
+	dmu sync.Mutex
+	dl  time.Time
+	set int
+}
+
+func (c *verifDeadlineConn) SetWriteDeadline(t time.Time) error {
+	c.dmu.Lock()
+	c.dl = t
+	c.set++
+	c.dmu.Unlock()
+	return nil
+}
+
+func (c *verifDeadlineConn) Write(p []byte) (int, error) {
+	c.dmu.Lock()
+	dl := c.dl
+	c.dmu.Unlock()
+	if !dl.IsZero() && time.Now().After(dl) {
+		return 0, verifTimeoutErr{}
+	}
+	return c.verifC13bConn.Write(p)
+}
+
+func TestVerif_C15_Deadlines(t *testing.T) {
+	m := mon.New("C15", "deadlines")
+	defer m.Finish(t)
+	m.Rule("deadlines: a transport that fails writes after the write deadline in effect (as net.Conn does); a control frame is sent with a deadline of 15..30 ms, " +
+		"(after a first data message in two scenarios of three), the scenario waits until that deadline has passed, then the data writer (no write deadline of its own, or one 10 s ahead) writes a message through " +
+		"{WriteMessage, NextWriter, prepared message}: it must succeed and be whole on the wire; both roles; the control frame's own success is a precondition " +
+		"(a scenario whose control write missed its deadline on a loaded machine is repeated, not judged); distinct = role x control type x data API x own deadline")
+	n := m.N(24, 400)
+	m.Require("evaluations", int64(n))
+	m.Require("data_writes_after_an_expired_control_deadline", int64(n*3/4))
+	for i := 0; i < n; i++ {
+		server, ctl, api, own := i%2 == 0, []int{PingMessage, PongMessage}[i/2%2], i / 4 % 3, i/12%2 == 1
+		rep := map[string]interface{}{"case": i, "server": server, "control": ctl, "api": api, "own_deadline": own}
+		m.Case()
+		for attempt, wait := 0, 15*time.Millisecond; attempt < 5; attempt, wait = attempt+1, wait*3 {
+			tr := &verifDeadlineConn{}
+			c := newConn(tr, server, 256, 64)
+			if own {
+				c.SetWriteDeadline(time.Now().Add(10 * time.Second))
+			}
+			if i%3 != 0 {
+				// usually the data writer has already written something under its own deadline before the control frame comes
+				if err := c.WriteMessage(TextMessage, []byte("first")); err != nil {
+					m.Violationf("c15:unexpected-write-error:deadlines", rep, "first data write: %v", err)
+					break
+				}
+			}
+			if err := c.WriteControl(ctl, []byte("keepalive"), time.Now().Add(wait)); err != nil {
+				continue // the control frame missed its own deadline (loaded machine): not what is examined here
+			}
+			time.Sleep(wait + wait/2)
+			payload := verifPayload('D', i, 150)
+			var err error
+			m.Guard("ws.c15.deadline", nil, func() {
+				switch api {
+				case 0:
+					err = c.WriteMessage(BinaryMessage, payload)
+				case 1:
+					var w io.WriteCloser
+					if w, err = c.NextWriter(BinaryMessage); err == nil {
+						if _, err = w.Write(payload); err == nil {
+							err = w.Close()
+						}
+					}
+				default:
+					var pm *PreparedMessage
+					if pm, err = NewPreparedMessage(BinaryMessage, payload); err == nil {
+						err = c.WritePreparedMessage(pm)
+					}
+				}
+			})
+			if err != nil {
+				m.Violationf("c15:data-write-failed-after-control-deadline", rep, "a data write %v after a control frame's deadline had passed failed: %v (the control frame's deadline leaked into the data writer's write)", wait+wait/2, err)
+				break
+			}
+			role := refws.RoleClient
+			if server {
+				role = refws.RoleServer
+			}
+			ps := refws.ParseLog(role, false, tr.wire)
+			if e := ps.Err(); e != nil || ps.Finish() != nil || len(ps.Messages()) == 0 || !bytes.Equal(ps.Messages()[len(ps.Messages())-1].Payload, payload) {
+				m.Violationf("c15:data-message-altered:deadlines", rep, "the wire after a control frame and a data message is not those two: %v", e)
+				break
+			}
+			m.Count("data_writes_after_an_expired_control_deadline", 1)
+			m.Classf("server%v/ctl%d/api%d/own%v", server, ctl, api, own)
+			break
+		}
 	}
 }
